@@ -8,6 +8,20 @@ import XotModel.Lemmas.ForestBasic
 namespace XotModel
 open HTree
 
+theorem takeWhile_all {α : Type} (p : α → Bool) (l : List α) (h : ∀ a ∈ l, p a = true) :
+    l.takeWhile p = l := by
+  induction l with
+  | nil => rfl
+  | cons a as ih =>
+    simp [List.takeWhile, h a (List.mem_cons_self ..), ih (fun b hb => h b (List.mem_cons_of_mem _ hb))]
+
+theorem dropWhile_all {α : Type} (p : α → Bool) (l : List α) (h : ∀ a ∈ l, p a = true) :
+    l.dropWhile p = [] := by
+  induction l with
+  | nil => rfl
+  | cons a as ih =>
+    simp [List.dropWhile, h a (List.mem_cons_self ..), ih (fun b hb => h b (List.mem_cons_of_mem _ hb))]
+
 theorem handlesList_append (a b : List HTree) :
     handlesList (a ++ b) = handlesList a ++ handlesList b := by
   induction a with
